@@ -580,6 +580,12 @@ func propC10(w *World, r *Report) {
 	// rewritten after loading (a recorder that rewrote it, e.g. through a pointer copy of the configuration, would move
 	// the later connections' temporary files out of the clean-up's reach)
 	checkSettingsImmutable(w, r, "D5", "Config:OutputDir")
+	// the directories the clean-up visits are the directories the recorders write to: the constant recorder's folder is
+	// derived once, from the configured directory (set twice - on a recorder kept across connections - it nests, and
+	// debris in the nested folder is never visited)
+	linkObligations(w, r, propC17, "C17", func(o *Obligation) bool {
+		return o.Rule == "C17.V5" && strings.Contains(o.Construct, "constant-recorder mode is set once")
+	}, "D5")
 }
 
 func instrIndex(in ssa.Instruction) int {
@@ -1197,6 +1203,11 @@ func provablyNonNilError(e *termEnv, b *ssa.BasicBlock, v ssa.Value) bool {
 		switch calleeName(c) {
 		case "errors.New", "fmt.Errorf":
 			return true
+		}
+	}
+	if u, ok := v.(*ssa.UnOp); ok {
+		if g, ok := u.X.(*ssa.Global); ok && sentinelError(g) {
+			return true // a named error of the package
 		}
 	}
 	for _, g := range e.guardsOf(b) {
